@@ -240,27 +240,41 @@ def wclose (w : Writer) : Prog (Res Integrity) := do
           | _ => pure (.error (.io e))
         | _ => pure (.ok sri)
 
-/-- `Writer::commit` / `SyncWriter::commit`. -/
-def wcommit (w : Writer) : Prog (Res Integrity) := do
+/-- The checks of `commit`: declared integrity, then declared size.  Returns the integrity to
+record in the index (the declared one if there is one, else the computed one). -/
+def commitChecks (w : Writer) (wsri : Integrity) : Res Integrity :=
+  match w.opts.sri with
+  | some s =>
+    if (Sri.matchesSri s wsri).isNone then .error .integrity
+    else sizeCheck s
+  | none => sizeCheck wsri
+where
+  sizeCheck (recorded : Integrity) : Res Integrity :=
+    match w.opts.size with
+    | some n => if n ≠ w.written then .error (.size n w.written) else .ok recorded
+    | none => .ok recorded
+
+/-- First half of `commit`: publish the content, then check the declarations.  No index call. -/
+def wcommitCheck (w : Writer) : Prog (Res (Integrity × Integrity)) := do
   match ← wclose cfg w with
   | .error e => pure (.error e)
   | .ok wsri =>
-    let declared := w.opts.sri
-    match declared with
-    | some s =>
-      if (Sri.matchesSri s wsri).isNone then pure (.error .integrity)
-      else finishCommit w wsri s
-    | none => finishCommit w wsri wsri
-where
-  finishCommit (w : Writer) (wsri recorded : Integrity) : Prog (Res Integrity) := do
-    match w.opts.size with
-    | some n => if n ≠ w.written then pure (.error (.size n w.written)) else index w wsri recorded
-    | none => index w wsri recorded
-  index (w : Writer) (wsri recorded : Integrity) : Prog (Res Integrity) := do
-    match w.key with
-    | some k =>
-      insert cfg w.cache k { w.opts with sri := some recorded, size := some (w.opts.size.getD w.written) }
-    | none => pure (.ok wsri)
+    match commitChecks w wsri with
+    | .error e => pure (.error e)
+    | .ok recorded => pure (.ok (wsri, recorded))
+
+/-- Second half: map the key (keyed writers only). -/
+def wcommitIndex (w : Writer) (wsri recorded : Integrity) : Prog (Res Integrity) :=
+  match w.key with
+  | some k =>
+    insert cfg w.cache k { w.opts with sri := some recorded, size := some (w.opts.size.getD w.written) }
+  | none => pure (.ok wsri)
+
+/-- `Writer::commit` / `SyncWriter::commit`. -/
+def wcommit (w : Writer) : Prog (Res Integrity) := do
+  match ← wcommitCheck cfg w with
+  | .error e => pure (.error e)
+  | .ok (wsri, recorded) => wcommitIndex cfg w wsri recorded
 
 /-- Feed a list of chunks with `write_all` (a plain file write never returns short in the model,
 so `write_all` is one `write` per chunk; an empty chunk issues no call). -/
